@@ -423,7 +423,10 @@ impl<'a, 'b> Collector<'a, 'b> {
 impl<'a, 'b, 'ast> Visit<'ast> for Collector<'a, 'b> {
     fn visit_item(&mut self, _i: &'ast Item) {
         // nested items (inner fns) are not part of this body's executable text; they are
-        // extracted on their own.  Drop them from the spliced body.
+        // extracted on their own.  Drop them from the spliced body (`use` declarations stay).
+        if matches!(_i, Item::Use(_)) {
+            return;
+        }
         let r = _i.span().byte_range();
         self.edits.push((r.start, r.end, String::new()));
     }
@@ -537,6 +540,19 @@ impl<'a, 'b, 'ast> Visit<'ast> for Collector<'a, 'b> {
                 if let Expr::Range(r) = inner {
                     if let (Some(lo), Some(hi), syn::RangeLimits::HalfOpen(_)) = (&r.start, &r.end, &r.limits) {
                         let t = format!("collect_range({}, {})", rw.render_expr(lo), rw.render_expr(hi));
+                        rw.count("R8");
+                        let sp = e.span().byte_range();
+                        self.edits.push((sp.start, sp.end, t));
+                        return;
+                    }
+                }
+                visit::visit_expr(self, e);
+            }
+            Expr::MethodCall(c) if c.method == "extend" && c.args.len() == 1 && matches!(c.args.first(), Some(Expr::Range(_))) => {
+                // R8: v.extend(a .. b)
+                if let Some(Expr::Range(r)) = c.args.first() {
+                    if let (Some(lo), Some(hi), syn::RangeLimits::HalfOpen(_)) = (&r.start, &r.end, &r.limits) {
+                        let t = format!("extend_range(&mut {}, {}, {})", rw.render_expr(&c.receiver), rw.render_expr(lo), rw.render_expr(hi));
                         rw.count("R8");
                         let sp = e.span().byte_range();
                         self.edits.push((sp.start, sp.end, t));
